@@ -31,11 +31,12 @@ pub struct RuleCfg {
     pub single_welcome: bool,
     pub allow_ext_commit: bool,
     pub encrypt_controls: bool,
+    pub custom_needs_path: bool,
 }
 
 impl Default for RuleCfg {
     fn default() -> Self {
-        RuleCfg { path_required: false, tree_ext: true, single_welcome: true, allow_ext_commit: false, encrypt_controls: false }
+        RuleCfg { path_required: false, tree_ext: true, single_welcome: true, allow_ext_commit: false, encrypt_controls: false, custom_needs_path: true }
     }
 }
 
@@ -58,6 +59,9 @@ impl MlsRules for VRules {
     fn encryption_options(&self, _r: &Roster, _c: &GroupContext) -> Result<EncryptionOptions, Infallible> {
         let c = *self.0.lock().unwrap();
         Ok(EncryptionOptions::new(c.encrypt_controls, mls_rs::client_builder::PaddingMode::None))
+    }
+    fn custom_proposal_requires_update_path(&self, _t: mls_rs::group::proposal::ProposalType) -> bool {
+        self.0.lock().unwrap().custom_needs_path
     }
 }
 
@@ -492,6 +496,9 @@ impl<C: MlsConfig, E: ExternalMlsConfig + Clone> World<C, E> {
                 let mut r = m.rules.lock().unwrap();
                 if let Some(b) = op["path_required"].as_bool() {
                     r.path_required = b;
+                }
+                if let Some(b) = op["custom_needs_path"].as_bool() {
+                    r.custom_needs_path = b;
                 }
                 if let Some(b) = op["tree_ext"].as_bool() {
                     r.tree_ext = b;
@@ -938,7 +945,14 @@ impl<C: MlsConfig, E: ExternalMlsConfig + Clone> World<C, E> {
                 Ok(json!({}))
             }
             "save" => {
-                mls!(grp!().write_to_storage());
+                if op["no_tree"].as_bool().unwrap_or(false) {
+                    // the state goes to storage without the ratchet tree; the tree is kept aside
+                    let t = mls!(grp!().export_tree().to_bytes());
+                    self.trees.insert(format!("saved.{who}"), t);
+                    mls!(grp!().write_to_storage_without_ratchet_tree());
+                } else {
+                    mls!(grp!().write_to_storage());
+                }
                 Ok(json!({}))
             }
             "load" => {
@@ -948,7 +962,13 @@ impl<C: MlsConfig, E: ExternalMlsConfig + Clone> World<C, E> {
                     None => m.group.as_ref().map(|g| g.group_id().to_vec()).ok_or("NoGroup")?,
                 };
                 m.group = None;
-                let g = mls!(m.client.load_group(&gid));
+                let g = if op["no_tree"].as_bool().unwrap_or(false) {
+                    let t = self.trees.get(&format!("saved.{who}")).ok_or("no saved tree")?;
+                    let tree = mls!(ExportedTree::from_bytes(t)).into_owned();
+                    mls!(m.client.load_group_with_ratchet_tree(&gid, tree))
+                } else {
+                    mls!(m.client.load_group(&gid))
+                };
                 m.group = Some(g);
                 Ok(json!({}))
             }
@@ -1111,7 +1131,9 @@ impl<C: MlsConfig, E: ExternalMlsConfig + Clone> World<C, E> {
                     self.msgs.insert(format!("{id}.w{i}"), mls!(w.to_bytes()));
                 }
                 self.trees.insert(format!("{id}.tree"), mls!(ng.export_tree().to_bytes()));
-                self.members.get_mut(&who).ok_or("no such member")?.sub = Some(ng);
+                if !op["discard"].as_bool().unwrap_or(false) {
+                    self.members.get_mut(&who).ok_or("no such member")?.sub = Some(ng);
+                }
                 Ok(json!({"welcomes": welcomes.len()}))
             }
             "swap" => {
